@@ -499,3 +499,113 @@ def sami_read(kinds: list[int], html_tags: bool) -> str:
     if not _balanced(r.line):
         return "unbalanced style nodes"
     return _cmp(_flags_of_nodes(r.line), want, (0, 1, 2))
+
+
+# --- SAMI write -> real SAMIParser + SAMIReader (tree builder: html.parser instead of lxml, see ASSUME) ------------
+import bs4 as _bs4
+
+
+def _bs_html(text, features=None, **kw):
+    return _bs4.BeautifulSoup(text, "html.parser")
+
+
+SAMI_DOC = ('<SAMI><HEAD><TITLE>t</TITLE><STYLE TYPE="text/css"><!--\n.en-US { lang: en-US; }\n--></STYLE></HEAD>'
+            '<BODY><SYNC start="1000"><P class="en-US">%s</P></SYNC><SYNC start="3000"><P class="en-US">&nbsp;</P></SYNC></BODY></SAMI>')
+
+
+def _sami_rt(kinds):
+    r = _build(kinds)
+    if r is None:
+        return ""
+    nodes, want = r
+    frag = SAMIWriter()._recreate_text(nodes)
+    saved = sm.BeautifulSoup
+    sm.BeautifulSoup = _bs_html
+    try:
+        caps = SAMIReader().read(SAMI_DOC % frag).get_captions("en-US")
+    finally:
+        sm.BeautifulSoup = saved
+    if len(caps) != 1:
+        return "number of captions after SAMI -> SAMI"
+    if not _balanced(caps[0].nodes):
+        return "reader returned unbalanced style nodes"
+    got = _flags_of_nodes(caps[0].nodes)
+    return _cmp(got, want, (0, 1, 2))
+
+
+def sami_roundtrip_i4(kinds: list[int]) -> str:
+    """
+    pre: _dom(kinds, 4)
+    post: _ == ""
+    """
+    return _sami_rt(_expand(kinds, 0))
+
+
+def sami_roundtrip_b4(kinds: list[int]) -> str:
+    """
+    pre: _dom(kinds, 4)
+    post: _ == ""
+    """
+    return _sami_rt(_expand(kinds, 1))
+
+
+def sami_roundtrip_u5(kinds: list[int]) -> str:
+    """
+    pre: _dom(kinds, 5)
+    post: _ == ""
+    """
+    return _sami_rt(_expand(kinds, 2))
+
+
+def sami_roundtrip_i6(kinds: list[int]) -> str:
+    """
+    pre: _dom(kinds, 6)
+    post: _ == ""
+    """
+    return _sami_rt(_expand(kinds, 0, 1))
+
+
+DFXP_DOC = ('<tt xml:lang="en" xmlns="http://www.w3.org/ns/ttml" xmlns:tts="http://www.w3.org/ns/ttml#styling"><body><div>'
+            '<p begin="00:00:01.000" end="00:00:02.000">%s</p></div></body></tt>')
+
+
+def _dfxp_rt(kinds):
+    import warnings
+    warnings.simplefilter("ignore")
+    r = _build(kinds)
+    if r is None:
+        return ""
+    nodes, want = r
+    frag = DFXPWriter()._recreate_text(Caption(0, 1, nodes), dfxp_soup())
+    caps = DFXPReader().read(DFXP_DOC % frag).get_captions("en")
+    if len(caps) != 1:
+        return "number of captions after DFXP -> DFXP"
+    if not _balanced(caps[0].nodes):
+        return "reader returned unbalanced style nodes"
+    return _cmp(_flags_of_nodes(caps[0].nodes), want, (0,))
+
+
+def dfxp_roundtrip_i4(kinds: list[int]) -> str:
+    """
+    pre: _dom(kinds, 4)
+    post: _ == ""
+    """
+    return _dfxp_rt(_expand(kinds, 0))
+
+
+def dfxp_roundtrip_i6(kinds: list[int]) -> str:
+    """
+    pre: _dom(kinds, 6)
+    post: _ == ""
+    """
+    return _dfxp_rt(_expand(kinds, 0))
+
+
+# --- captions produced by the SCC reader: balanced style nodes, italic flags as the reference decoder's -------------
+def scc_three_rows(gap1: int, gap2: int, it1: bool, it2: bool, it3: bool, dbl: bool) -> str:
+    """
+    pre: 1 <= gap1 <= 2 and 1 <= gap2 <= 2
+    post: _ == ""
+    """
+    from harness.C05_scc import _three_rows
+    return _three_rows(1 if gap1 == 1 else 2, 1 if gap2 == 1 else 2, it1, it2, it3, dbl)
